@@ -21,6 +21,9 @@ pub struct GenCfg {
     pub epoch: EpochPolicy,
     /// allow large strings / containers
     pub big: bool,
+    /// terminated byte strings in several segments (what the serializer emits for a
+    /// `VecDeque<u8>` that wraps around, or for repeated `Bytes2Serializer::serialize` calls)
+    pub segmented: bool,
 }
 
 impl GenCfg {
@@ -33,6 +36,7 @@ impl GenCfg {
             dups: false,
             epoch,
             big: true,
+            segmented: true,
         }
     }
 
@@ -45,6 +49,7 @@ impl GenCfg {
             dups: true,
             epoch: EpochPolicy::Mixed,
             big: true,
+            segmented: true,
         }
     }
 }
@@ -367,7 +372,7 @@ impl<'a, 'b> Gen<'a, 'b> {
             }
             Epoch::V2 => {
                 let mut chunks = vec![];
-                if self.cfg.noncanon && n > 1 && self.t.bool() {
+                if (self.cfg.noncanon || self.cfg.segmented) && n > 1 && self.t.bool() {
                     let parts = self.t.range(2, 4.min(n));
                     let mut rest = &data[..];
                     for i in 0..parts {
